@@ -224,6 +224,8 @@ pub fn check(spec: &PropSpec, tier: Tier, seed: i64) -> i32 {
     let mut steps = 0usize;
     let mut points = 0usize;
     let mut capped = caps_not_started > 0;
+    let mut cases = 0usize;
+    let mut nontrivial_cases = 0usize;
     let mut obs: HashSet<u64> = HashSet::new();
     let mut violations: Vec<Violation> = vec![];
     let mut machinery: Vec<String> = errors;
@@ -235,6 +237,8 @@ pub fn check(spec: &PropSpec, tier: Tier, seed: i64) -> i32 {
         steps += r.steps;
         points += r.choice_points;
         capped |= r.capped;
+        cases += r.cases;
+        nontrivial_cases += r.nontrivial_cases;
         obs.extend(r.obs.iter().copied());
         machinery.extend(r.machinery_errors.iter().cloned());
         for v in &r.violations {
@@ -331,8 +335,9 @@ pub fn check(spec: &PropSpec, tier: Tier, seed: i64) -> i32 {
             "states": points.max(1),
             "transitions": steps.max(1),
             "traces_validated_against_impl": execs,
-            "evaluations": per.len(),
-            "distinct_nontrivial": nontrivial.len(),
+            "evaluations": per.len() + cases,
+            "distinct_nontrivial": if cases > 0 { nontrivial_cases } else { nontrivial.len() },
+            "cases_enumerated_inside_executions": cases,
             "distinct_terminal_observations": obs.len(),
             "rule": spec.rule,
             "samples": samples,
@@ -356,10 +361,11 @@ pub fn check(spec: &PropSpec, tier: Tier, seed: i64) -> i32 {
         serde_json::to_string_pretty(&ev).unwrap(),
     );
     println!(
-        "{} {}: scenarios={} executions={} steps={} choice_points={} distinct_observations={} capped={} wall={:.1}s",
+        "{} {}: scenarios={} cases={} executions={} steps={} choice_points={} distinct_observations={} capped={} wall={:.1}s",
         spec.id,
         tier.name(),
         per.len(),
+        cases,
         execs,
         steps,
         points,
